@@ -189,4 +189,13 @@ CHECKS = {
             {"pkg": "internal/spynode", "test": "TestVerif_C12"},
         ],
     },
+    "C10": {
+        "level": "fault_enumeration",
+        "technique": "runtime monitoring with fault enumeration: every crash image (state after each prefix of the recorded storage mutation log) and every single-operation storage fault of generated sync/reorg/shutdown scenarios, judged by a load + single-branch monitor and the C01 convergence oracle",
+        "level_text": "Each generated scenario (initial sync incl. header-file roll-over, in-sync extensions with a save per block, reorgs of depth 1-6 also across a file boundary, clean restarts, shutdown) runs on a recording storage wrapper. For every prefix of its mutation log the storage image is rebuilt and a fresh node must load a hash-linked chain lying on one branch of the peer's tree and converge to the peer's best chain; for every j the same deterministic scenario is replayed with the j-th storage operation failing once, after which the in-memory chain must be consistent or a restart on the surviving storage must load and converge. All i and all j are enumerated per scenario (exhaustive per scenario, up to 600 each); the scenario set itself is sampled.",
+        "level_note": "Trusted: the storage wrapper's images equal the back-end state after mutation i (atomic whole-key writes; torn writes not modelled), the DS engine's determinism for a fixed seed, the scripted peer of C01 for the convergence part.",
+        "runs": [
+            {"pkg": "internal/spynode", "test": "TestVerif_C10", "shards": {"quick": 6, "thorough": 16}},
+        ],
+    },
 }
